@@ -313,6 +313,8 @@ class BaseModel(SolverMixin, ModelInterface):
                     f'in period with label: {self.span[t]} (index: {t})'
                 ) from e
 
+        iteration = 0  # Ensure defined should `max_iter` be zero (no iterations)
+
         for iteration in range(1, max_iter + 1):
             previous_values = current_values.copy()
 
